@@ -1,4 +1,6 @@
 import BddVerif.Props.C15
+import BddVerif.Lemmas.AlgoEq3ExprDriver
+import BddVerif.Lemmas.AlgoEq3ExprString
 #print axioms B.Props.C15.eval_expr_spec
 #print axioms B.Props.C15.eval_expr_canonical
 #print axioms B.Props.C15.eval_expr_none_iff
@@ -10,3 +12,20 @@ import BddVerif.Props.C15
 #print axioms B.Props.C15.connective_tables
 #print axioms B.Props.C15.macro_table_ok
 #print axioms B.Props.C15.macro_ops_intended
+#print axioms B.AlgoEq3Expr.BooleanExpression_fmt_eq_model
+#print axioms B.AlgoEq3Expr.BooleanExpression_fmt_fuel_panic
+#print axioms B.AlgoEq3Expr.genDisplay_eq_model
+#print axioms B.AlgoEq3Expr.safe_eval_eq_model
+#print axioms B.AlgoEq3Expr.safe_eval_none_iff
+#print axioms B.AlgoEq3Expr.safe_eval_some_canon
+#print axioms B.AlgoEq3Expr.eval_expression_eq_model
+#print axioms B.AlgoEq3Expr.eval_expression_panic_iff
+#print axioms B.AlgoEq3Expr.eval_eq_model_driver
+#print axioms B.AlgoEq3Expr.to_boolean_expression_rel
+#print axioms B.AlgoEq3Expr.to_boolean_expression_eq_model
+#print axioms B.AlgoEq3Expr.to_boolean_expression_sem
+#print axioms B.AlgoEq3Expr.to_boolean_expression_eq_model_driver
+#print axioms B.AlgoEq3Expr.export_eval_roundtrip_translated
+#print axioms B.AlgoEq3Expr.eval_expression_string_rel
+#print axioms B.AlgoEq3Expr.eval_expression_string_rel_closed
+#print axioms B.AlgoEq3Expr.eval_expression_string_rel_driver
